@@ -6,22 +6,25 @@
 
       if not isinstance(other, Grid):                         return False
       if self.source_grid_spec != other.source_grid_spec:     return False
-      if not (self.node_lon.equals(other.node_lon)
-              <CONNECTIVE> self.node_lat.equals(other.node_lat)):   return False
-      if not self.face_node_connectivity.equals(other.face_node_connectivity): return False
+      if not (self.node_lon<.variable>.equals(other.node_lon<.variable>)
+              <CONNECTIVE> self.node_lat<.variable>.equals(other.node_lat<.variable>)):   return False
+      if not self.face_node_connectivity<.variable>.equals(other.face_node_connectivity<.variable>): return False
       return True
       __ne__ :  return not self.__eq__(other)
 
-  `gridEq` is the REPAIRED algorithm (`and`, fixes/C20-eq-connective.patch); `gridEqAsIs` is the
-  snapshot's (`or`).  `DataArray.equals` on two variables with the grid's canonical dimension
-  names is: same shape and, element by element, `(x == y) | (isnull x & isnull y)` — modelled by
-  `arrEq valEq` (1-D, shape = length) and `connEq` (2-D shape + flat data) — AND the same
-  xarray *coordinates* with equal values.  Readers leave `node_lon`/`node_lat` either as plain
-  data variables (no coordinates on them) or as coordinates of the dataset (Exodus reader, files
-  that declare them as coordinates), in which case each of the two variables carries BOTH as
-  coordinates: flag `coordVars`.  So `node_lon.equals` then also compares the latitudes and the
-  flag itself — a grid detail the property does not mention (known finding
-  `C20/eq=False/differs=none/coords-structure`).
+  Three versions are modelled:
+  * `gridEq` — the REPAIRED algorithm: connective `and` (fixes/C20-eq-connective.patch) and
+    comparison of the VARIABLES (fixes/C20-eq-compares-variables.patch).  `Variable.equals` on the
+    grid's canonical dimension names is: same shape and, element by element,
+    `(x == y) | (isnull x & isnull y)` — `arrEq valEq` (1-D, shape = length) and `connEq`
+    (2-D shape + flat data).
+  * `gridEqCoords` — `and`, but `DataArray.equals`, which ALSO compares the xarray *coordinates*
+    attached to the arrays.  Readers leave `node_lon`/`node_lat` either as plain data variables
+    (no coordinates on them) or as coordinates of the dataset (Exodus reader, files that declare
+    them as coordinates), in which case each of the two variables carries BOTH as coordinates:
+    flag `coordVars`.  `node_lon.equals` then also compares the latitudes and the flag itself — a
+    grid detail the property does not mention (`coords_structure_violates_spec`).
+  * `gridEqAsIs` — the snapshot: `DataArray.equals` joined with `or`.
 
   Floats are their IEEE-754 binary64 bit patterns (`Nat`), so that the element comparison is an
   exact integer-level definition about which everything is provable (no opaque `Float`):
@@ -82,18 +85,30 @@ def coordsEq (a b : Grid) : Bool :=
   a.coordVars == b.coordVars &&
     (!a.coordVars || (arrEq valEq a.lon b.lon && arrEq valEq a.lat b.lat))
 
-/-- `self.node_lon.equals(other.node_lon)` -/
-def lonEq (a b : Grid) : Bool := arrEq valEq a.lon b.lon && coordsEq a b
-/-- `self.node_lat.equals(other.node_lat)` -/
-def latEq (a b : Grid) : Bool := arrEq valEq a.lat b.lat && coordsEq a b
+/-- `self.node_lon.equals(other.node_lon)` (DataArray: values and coordinates) -/
+def lonEqDA (a b : Grid) : Bool := arrEq valEq a.lon b.lon && coordsEq a b
+/-- `self.node_lat.equals(other.node_lat)` (DataArray: values and coordinates) -/
+def latEqDA (a b : Grid) : Bool := arrEq valEq a.lat b.lat && coordsEq a b
+/-- `self.node_lon.variable.equals(other.node_lon.variable)` (Variable: dims, shape, values) -/
+def lonEq (a b : Grid) : Bool := arrEq valEq a.lon b.lon
+/-- `self.node_lat.variable.equals(other.node_lat.variable)` -/
+def latEq (a b : Grid) : Bool := arrEq valEq a.lat b.lat
 /-- `face_node_connectivity.equals`: same 2-D shape and same integers. -/
 def connEq (a b : Grid) : Bool :=
   a.nFace == b.nFace && a.width == b.width && arrEq intEq a.conn b.conn
 
-/-- **Impl (repaired)** — `Grid.__eq__` between two grids with `and`. -/
+/-- **Impl (repaired)** — `Grid.__eq__` between two grids: `and`, variables compared. -/
 def gridEq (a b : Grid) : Bool :=
   if a.spec != b.spec then false
   else if !(lonEq a b && latEq a b) then false
+  else if !(connEq a b) then false
+  else true
+
+/-- **Impl before fixes/C20-eq-compares-variables.patch** — `and`, `DataArray.equals`
+    (coordinates compared too). -/
+def gridEqCoords (a b : Grid) : Bool :=
+  if a.spec != b.spec then false
+  else if !(lonEqDA a b && latEqDA a b) then false
   else if !(connEq a b) then false
   else true
 
@@ -141,9 +156,9 @@ def connShapeEq (a b : Grid) : Bool :=
   a.nFace == b.nFace && a.width == b.width && a.conn.length == b.conn.length
 
 def lonEqB (a b : BGrid) : Bool :=
-  varEqB (lonShapeEq a.g b.g) a.bLon b.bLon (arrEq valEq a.g.lon b.g.lon) && coordsEq a.g b.g
+  varEqB (lonShapeEq a.g b.g) a.bLon b.bLon (arrEq valEq a.g.lon b.g.lon)
 def latEqB (a b : BGrid) : Bool :=
-  varEqB (latShapeEq a.g b.g) a.bLat b.bLat (arrEq valEq a.g.lat b.g.lat) && coordsEq a.g b.g
+  varEqB (latShapeEq a.g b.g) a.bLat b.bLat (arrEq valEq a.g.lat b.g.lat)
 def connEqB (a b : BGrid) : Bool :=
   varEqB (connShapeEq a.g b.g) a.bConn b.bConn (connEq a.g b.g)
 
@@ -176,10 +191,10 @@ def Backing.kind : Backing → String
 def BGrid.kind (a : BGrid) : String :=
   if a.bLon.kind == a.bLat.kind && a.bLat.kind == a.bConn.kind then a.bLon.kind else "mixed"
 
-/-- **Impl as it stands in the snapshot** — `or` between the two coordinate comparisons. -/
+/-- **Impl as it stands in the snapshot** — `or` between the two `DataArray.equals` calls. -/
 def gridEqAsIs (a b : Grid) : Bool :=
   if a.spec != b.spec then false
-  else if !(lonEq a b || latEq a b) then false
+  else if !(lonEqDA a b || latEqDA a b) then false
   else if !(connEq a b) then false
   else true
 
